@@ -11,47 +11,6 @@
    (4) data independence: the projection is a simulation;  (5) the theorems. *)
 From PB Require Export Peripheral Slave DpRun DpOracle.
 
-(* ================================================================== 1. the joint system *)
-
-(* what the FDL hands to the application for the slave's answer: a telegram that decodes completely and is
-   admissible for the pending request; anything else is a timeout *)
-Definition deliver (own da : Z) (reply : option bytes) : option telegram :=
-  match reply with
-  | None => None
-  | Some w =>
-      match decode w with
-      | Ok (Accept t n) => if Nat.eqb n (length w) && admissible own da t then Some t else None
-      | _ => None
-      end
-  end.
-
-Definition jstate : Set := (periph * slave)%type.
-
-(* one fault-free DP cycle of the pair: returns the new pair and the peripheral events of the cycle *)
-Definition joint_cycle (pa : params) (op : opstate) (st : jstate) : res (jstate * list pevent) :=
-  let (p, s) := st in
-  let* (p1, r) := p_transmit pa op p in
-  match r with
-  | PtxSkip ev => Ok ((p1, s), match ev with Some e => [e] | None => [] end)
-  | PtxSend h pdu =>
-      let (s1, reply) := slave_step s (frame_spec h pdu) in
-      match deliver (p_address pa) (pe_addr p) reply with
-      | Some t =>
-          let* (p2, ev) := p_receive_reply p1 t in
-          Ok ((p2, s1), match ev with Some e => [e] | None => [] end)
-      | None => Ok ((p1, s1), [])                       (* handle_timeout: nothing *)
-      end
-  end.
-
-Fixpoint joint_run (pa : params) (op : opstate) (n : nat) (st : jstate) : res (jstate * list pevent) :=
-  match n with
-  | O => Ok (st, [])
-  | S n' =>
-      let* (st1, e1) := joint_cycle pa op st in
-      let* (st2, e2) := joint_run pa op n' st1 in
-      Ok (st2, e1 ++ e2)
-  end.
-
 (* ================================================================== 2. the control abstraction *)
 
 Inductive dgc : Set := DgNone | DgFaultPrm | DgFault | DgPrm | DgNotReady | DgReady.
@@ -300,3 +259,4 @@ Definition okres (u : ust) (o : outc) : bool :=
 
 Definition chk_fixes (l : list afix) : bool :=
   forallb (fun fx => forall_u (fun u => okres u (chk fx 12 u RZ) && okres u (chk fx 12 u RMid))) l.
+
